@@ -81,25 +81,49 @@ class _LP(Client):
             cv = const_value(rhs)
             if cv is None and isinstance(rhs, dict) and rhs.get('k') == 'assign':
                 cv = const_value(rhs.get('rhs'))     # lp = bcn = 1
-            t = self.r.r(rhs)
             new = set()
             for (b, l) in st:
-                if w == 'lp':
-                    if cv is not None:
-                        new.add((b, 1 if cv else 0))
-                    elif t in ('(!= %sbcn) 0)' % REGS, '(!= (->* $0 (& bcn)) 0)', '(!= f:%s::bcn 0)' % RS):
-                        new.add((b, b))
-                    else:
-                        new.add((b, 0))
-                        new.add((b, 1))
-                else:
-                    if cv is not None:
-                        new.add((1 if cv else 0, l))
-                    else:
-                        new.add((0, l))
-                        new.add((1, l))
+                vals = {1 if cv else 0} if cv is not None else self._truth(rhs, b, l)
+                for v in vals:
+                    new.add((b, v) if w == 'lp' else (v, l))
             return frozenset(new)
         return st
+
+    def _truth(self, e, b, l):
+        """possible truth values of expression e in the abstract state (bcn != 0) = b, lp = l"""
+        e = unwrap_casts(e)
+        if not isinstance(e, dict):
+            return {0, 1}
+        cv = const_value(e)
+        if cv is not None:
+            return {1 if cv else 0}
+        w = self._which(e)
+        if w == 'bcn':
+            return {b}
+        if w == 'lp':
+            return {l}
+        k = e.get('k')
+        if k == 'un' and e.get('op') == '!':
+            return {1 - v for v in self._truth(e.get('e'), b, l)}
+        if k == 'bin' and e.get('op') in ('==', '!='):
+            for x, y in ((e.get('lhs'), e.get('rhs')), (e.get('rhs'), e.get('lhs'))):
+                c = const_value(unwrap_casts(y)) if isinstance(unwrap_casts(y), dict) else None
+                if c == 0:
+                    t = self._truth(x, b, l)
+                    return {1 - v for v in t} if e['op'] == '==' else t
+            return {0, 1}
+        if k == 'bin' and e.get('op') == '&&':
+            a, c = self._truth(e['lhs'], b, l), self._truth(e['rhs'], b, l)
+            return {x & y for x in a for y in c}
+        if k == 'bin' and e.get('op') == '||':
+            a, c = self._truth(e['lhs'], b, l), self._truth(e['rhs'], b, l)
+            return {x | y for x in a for y in c}
+        if k == 'cond':
+            out = set()
+            for cval in self._truth(e.get('c'), b, l):
+                out |= self._truth(e.get('a') if cval else e.get('b'), b, l)
+            return out
+        return {0, 1}
 
     def branch(self, cond, st):
         st = self.transfer(cond, st)
@@ -278,22 +302,48 @@ def l3_shape(ctx, RL):
     ctx.inst(R)
     if not (RL.index('fetch') < RL.index('expand') < RL.index('rep') < RL.index('lp') < RL.index('dispatch')):
         ctx.report(R, f, RL.stage['rep'], 'stage order', 'stages are ordered %s; expected fetch, operand fetch, rep, lp, dispatch' % RL.order)
+    from .. import summ, boolform
+    A, N = boolform.A, boolform.neg
+
+    def expect(stage, what, want, ignore_value=()):
+        """the stage performs exactly the effects `want` {(lvalue, op, value): condition}"""
+        SM = summ.summary_of(ctx, f, [stage])
+        got = SM.effect_conditions(lambda e: e[0] == 'write' or (e[0] == 'call' and not SM.is_pure_call_text(e[1])))
+        got2 = {}
+        for e, c in got.items():
+            key = (e[1], e[2], '*' if e[1] in ignore_value else e[3]) if e[0] == 'write' else ('call', e[1], '')
+            got2[key] = boolform.any_of(got2.get(key, boolform.F_), c)
+        probs = []
+        for k_, c in want.items():
+            if k_ not in got2:
+                probs.append('missing %s %s %s' % k_)
+            elif boolform.equivalent(got2[k_], c) is not True:
+                probs.append('%s %s %s happens when %s' % (k_[0][-40:], k_[1], k_[2][-40:], boolform.show(got2[k_])[:160]))
+        for k_ in got2:
+            if k_ not in want:
+                probs.append('unexpected %s %s %s' % (k_[0][-60:], k_[1], k_[2][-60:]))
+        if probs:
+            ctx.report(R, f, stage, what, '%s bookkeeping differs: %s' % (what, '; '.join(probs)[:500]))
     rep = RL.stage['rep']
     ctx.inst(R)
-    want = '(if %srep) {(if (== %srepc) 0) {(= %srep) 0)} else {(-- %srepc)) (-- %spc))})})' % ((REGS,) * 5)
-    if r.s(rep) != want:
-        ctx.report(R, f, rep, 'rep stage', 'single-instruction repeat bookkeeping differs: ' + r.s(rep)[:300])
+    REP, REPC, PC = REGS + 'rep)', REGS + 'repc)', REGS + 'pc)'
+    expect(rep, 'rep stage', {(REP, '=', '0'): boolform.all_of(A(REP), N(A(REPC))),
+                              (REPC, '--', ''): boolform.all_of(A(REP), A(REPC)),
+                              (PC, '--', ''): boolform.all_of(A(REP), A(REPC))})
     lp = RL.stage['lp']
     ctx.inst(R)
     TOP = '(. ([] %sbkrep_stack) (- %sbcn) 1)) Teakra::RegisterState::BlockRepeatFrame::' % (REGS, REGS)
-    want = ('(if (&& %slp) (== (+ %send) 1) %spc))) {(if (== %slc) 0) {(-- %sbcn)) (= %slp) (!= %sbcn) 0))} else {(-- %slc)) (= %spc) %sstart))})})'
-            % (REGS, TOP, REGS, TOP, REGS, REGS, REGS, TOP, REGS, TOP))
-    got = r.s(lp)
-    if got != want and got != want.replace('(== (+ %send) 1) %spc))' % (TOP, REGS), '(== %spc) (+ %send) 1))' % (REGS, TOP)):
-        ctx.report(R, f, lp, 'lp stage', 'block repeat bookkeeping differs: ' + got[:400])
+    LP, BCN = REGS + 'lp)', REGS + 'bcn)'
+    HIT = boolform.all_of(A(LP), A('(== %s %s)' % tuple(sorted(['(+ %send) 1)' % TOP, PC]))))
+    LC = A(TOP + 'lc)')
+    expect(lp, 'lp stage', {(BCN, '--', ''): boolform.all_of(HIT, N(LC)),
+                            (LP, '=', '*'): boolform.all_of(HIT, N(LC)),
+                            (TOP + 'lc)', '--', ''): boolform.all_of(HIT, LC),
+                            (PC, '=', TOP + 'start)'): boolform.all_of(HIT, LC)}, ignore_value=(LP,))
     g = ctx.fn(I + 'Repeat(unsigned short)')
     ctx.inst(R)
-    if render_stmt(g['body'], g) != '{(= %srepc) $0) (= %srep) 1)}' % (REGS, REGS):
+    eff = summ.summary(ctx, g, asserts='ignore').effect_conditions()
+    if {k[:4] for k in eff} != {('write', REPC, '=', '$0'), ('write', REP, '=', '1')} or any(boolform.equivalent(c, boolform.T) is not True for c in eff.values()):
         ctx.report(R, g, g['body'], 'Repeat', 'Repeat(n) is not {repc = n; rep = true}')
     g = ctx.fn(I + 'BlockRepeat(unsigned short,unsigned int)')
     ctx.inst(R)
